@@ -254,6 +254,10 @@ def only_unauthentic_second_references(sc, v):
     rewritten = [m_['p'] for m_ in sc.get('muts', []) if m_.get('m') == 'manifest']
     depth = lambda p_: len([c_ for c_ in os.path.dirname(p_).split('/') if c_])
     k_level = min([depth(p_) for p_ in rewritten] or [99])
+    if v.chain and all(c in v.partial and c in v.chain_uncomputable for c in v.chain):
+        # matched one accepted parent's entry; the other reference cannot be computed here at all (it contradicts nothing):
+        # refused or not depending on which reference the loader meets first
+        return True
     return bool(v.chain) and all(c in v.partial for c in v.chain) and (
         sc.get('top', 'Manifest') in rewritten or
         all(depth(h) >= k_level for c in v.chain for h in v.chain_holders.get(c, [])))
